@@ -81,6 +81,8 @@ def make_plan(seed: int, tier: str, index: int) -> dict[str, Any]:
         faults = []
         for _k in range(f.choice([1, 1, 2, 3])):
             cand = [i for i in range(1, len(s2)) if len(s2[i][1]) >= 1]
+            if not cand:
+                break
             si = f.choice(cand)
             body = s2[si][1]
             kind = f.choice(["reorder", "line_swap", "line_dup", "line_drop", "line_move",
@@ -104,7 +106,7 @@ def make_plan(seed: int, tier: str, index: int) -> dict[str, Any]:
             elif kind == "sort_desc":
                 body.sort(key=lambda ln: -int(ln.split(" = ")[0]) if ln.split(" = ")[0].isdigit() else 0)
             faults.append(f"{kind}:{gen_family(s2[si][0])}")
-        variants.append({"fault": "+".join(faults), "text": gen.render_sections(s2)})
+        variants.append({"fault": "+".join(faults) or "none", "text": gen.render_sections(s2)})
     return {"property": PROP, "seed": seed, "part": "reorder", "variants": variants,
             "base": variants[0]["text"], "lower_seed": f.getrandbits(16)}
 
